@@ -173,20 +173,44 @@ def coq_eval(tag, requires, terms, shards=NCPU, timeout=900, prelude=""):
             fh.write(head)
             for i in parts[k]:
                 fh.write(f"Eval vm_compute in ({terms[i]}).\n")
-        rc, out = sh(["coqc", "-noglob", "-Q", COQ, "WX", f], timeout=timeout, cwd=d)
+        rc, out = sh(["coqc", "-noglob", "-Q", COQ, "WX", f], timeout=min(timeout, 120 + 2 * len(parts[k])), cwd=d)
         return rc, out
 
     results = [None] * n
     errs = []
+    slow = []
     with ThreadPoolExecutor(max_workers=NCPU) as ex:
         for k, (rc, out) in enumerate(ex.map(run, range(shards))):
             vals = parse_coq_strings(out)
+            if rc == 124:
+                slow += parts[k]          # the shard ran out of time: find the expensive term(s) below
+                continue
             if rc != 0 or len(vals) != len(parts[k]):
                 errs.append(f"shard {k}: rc={rc}, {len(vals)}/{len(parts[k])} results\n{out[-2000:]}")
                 continue
             for i, v in zip(parts[k], vals):
                 results[i] = v
+    if slow:
+        # evaluate the terms of the timed-out shards one by one; a term whose exploration is too expensive is reported as
+        # MODEL-TIMEOUT (callers count it as skipped: it says nothing about the code)
+        def one(i):
+            f = os.path.join(d, f"single_{i}.v")
+            with open(f, "w", encoding="utf-8") as fh:
+                fh.write(head + f"Eval vm_compute in ({terms[i]}).\n")
+            rc, out = sh(["coqc", "-noglob", "-Q", COQ, "WX", f], timeout=90, cwd=d)
+            vals = parse_coq_strings(out)
+            if rc == 0 and len(vals) == 1:
+                return i, vals[0], None
+            return i, MODEL_TIMEOUT if rc == 124 else None, (None if rc == 124 else f"term {i}: rc={rc}\n{out[-1500:]}")
+        with ThreadPoolExecutor(max_workers=NCPU) as ex:
+            for i, v, e in ex.map(one, slow):
+                results[i] = v
+                if e:
+                    errs.append(e)
     return results, "\n".join(errs)
+
+
+MODEL_TIMEOUT = "MODEL-TIMEOUT"
 
 
 # --------------------------------------------------------------------------------------------
